@@ -16,8 +16,9 @@
 #include <gvt/fossil.h>
 
 static FILE *f_ops, *f_c;
-static int mode_par, mode_dist;
+static int mode_par, mode_dist, mode_rank; /* rank: full trace vocabulary, one file pair per MPI rank */
 static const char *ops_path, *c_path;
+static char rank_model_line[512];
 static unsigned usleep_max;
 static unsigned long n_ev[40], n_lines;
 static uint64_t vclock, vperiod = 1000;
@@ -84,6 +85,11 @@ static void dist_open(void)
 	setvbuf(f_ops, NULL, _IOLBF, 0); /* a rank killed by the watchdog must leave complete lines */
 	setvbuf(f_c, NULL, _IOLBF, 0);
 	vrng_state ^= 0x9e3779b97f4a7c15ULL * (uint64_t)(nid + 1); /* a different schedule on every rank */
+	if(mode_rank) {
+		fprintf(f_ops, "%s %d %d\n", rank_model_line, (int)n_nodes, (int)nid);
+		fprintf(f_c, "model ok\n");
+		n_lines++;
+	}
 }
 #define OP(...) ((void)(f_ops || (dist_open(), 1)), fprintf(f_ops, __VA_ARGS__), fputc('\n', f_ops), n_lines++)
 #define RE(...) (fprintf(f_c, __VA_ARGS__), fputc('\n', f_c))
@@ -273,7 +279,7 @@ void verif_trace(unsigned kind, uint64_t a, uint64_t b, uint64_t c)
 			OP("fdone %u %llu %llu", r, (unsigned long long)a, (unsigned long long)b);
 			if(a < MAXLP)
 				hbase[a] += b;
-			RE("fdone lp=%llu n=%llu c03=ok", (unsigned long long)a, (unsigned long long)b);
+			RE("fdone lp=%llu n=%llu c03=%s", (unsigned long long)a, (unsigned long long)b, mode_rank ? "-" : "ok");
 			break;
 		case VK_EXTRACT:
 			OP("ext %u %llu %llu", r, (unsigned long long)ord_of(m), (unsigned long long)b);
@@ -394,9 +400,49 @@ void verif_trace(unsigned kind, uint64_t a, uint64_t b, uint64_t c)
 			RE("fini lp=%llu m=%llu idx=%llu tag=%u%s", (unsigned long long)a,
 			    (unsigned long long)((b & 3) == 1 ? 0 : ord_of(p)),
 			    (unsigned long long)c, (unsigned)(b & 3),
-			    (!(b & 3) && r < VS_MAXT && tq_of(((const struct lp_msg *)p)->dest_t) < th_gvt[r]) ? " c03=ok" : "");
+			    (!(b & 3) && !mode_rank && r < VS_MAXT && tq_of(((const struct lp_msg *)p)->dest_t) < th_gvt[r]) ? " c03=ok" : "");
 			break;
 		}
+		case VK_RECV_REMOTE: {
+			uint64_t o = ord_of(m);
+			fprintf(f_ops, "rrecv %u %llu %llu %llu %u %u %u %u ", r, (unsigned long long)o, (unsigned long long)m->dest,
+			    (unsigned long long)tq_of(m->dest_t), m->m_type, m->pl_size, m->raw_flags, m->m_seq);
+			fput_hex(f_ops, m->pl, m->pl_size);
+			fputc('\n', f_ops);
+			n_lines++;
+			RE("rrecv %llu", (unsigned long long)o);
+			break;
+		}
+		case VK_RECV_REMOTE_ANTI:
+			OP("rrecva %u %llu %llu %llu %u %u", r, (unsigned long long)ord_of(m), (unsigned long long)m->dest,
+			    (unsigned long long)tq_of(m->dest_t), m->raw_flags, m->m_seq);
+			RE("rrecva %llu", (unsigned long long)ord_of(m));
+			break;
+		case VK_SEND_REMOTE:
+			OP("rsend %u %llu %llu", r, (unsigned long long)ord_of(m), (unsigned long long)b);
+			RE("rsend %llu from=%llu dest=%llu tq=%llu type=%u size=%u pl=%llx", (unsigned long long)ord_of(m),
+			    (unsigned long long)b, (unsigned long long)m->dest, (unsigned long long)tq_of(m->dest_t), m->m_type,
+			    m->pl_size, (unsigned long long)gm_payload_digest(m->pl, m->pl_size));
+			break;
+		case VK_ANTI_REMOTE:
+			n_ev[39]++;
+			n_antis++;
+			OP("antir %u %llu", r, (unsigned long long)ord_of(m));
+			RE("antir %llu", (unsigned long long)ord_of(m));
+			break;
+		case VK_MSG_FREE_AT_GVT:
+			OP("fgvt %u %llu", r, (unsigned long long)ord_of(m));
+			RE("fgvt %llu", (unsigned long long)ord_of(m));
+			break;
+		case VK_EARLY_ANTI:
+			n_ev[38]++;
+			OP("early %u %llu", r, (unsigned long long)ord_of(m));
+			RE("early %llu", (unsigned long long)ord_of(m));
+			break;
+		case VK_EARLY_MATCH:
+			OP("ematch %u %llu %llu", r, (unsigned long long)ord_of(m), (unsigned long long)ord_of((const void *)(uintptr_t)b));
+			RE("ematch %llu %llu", (unsigned long long)ord_of(m), (unsigned long long)ord_of((const void *)(uintptr_t)b));
+			break;
 		case VK_DRAIN_STAGE:
 			if(r < VS_MAXT)
 				drain_stage[r] = (unsigned)a;
@@ -443,7 +489,10 @@ static void on_fini(lp_id_t me, const struct gm_state *st)
 		OP("finilp %u %llu", rid, (unsigned long long)me);
 		/* the final state is claimed to equal the sequential one only for predicate-terminated runs;
 		 * a run stopped by a termination time ends in a speculative state */
-		if(mode_dist && g_tterm_q)
+		if(mode_rank)
+			RE("finilp lp=%llu st=%llx cnt=%llu seq=-", (unsigned long long)me, (unsigned long long)d,
+			    (unsigned long long)st->cnt);
+		else if(mode_dist && g_tterm_q)
 			RE("finilp lp=%llu seq=-", (unsigned long long)me);
 		else if(mode_dist)
 			RE("finilp lp=%llu seq=%llx cnt=%llu", (unsigned long long)me, (unsigned long long)d,
@@ -463,16 +512,16 @@ static void on_fini(lp_id_t me, const struct gm_state *st)
 
 static void print_stats(const char *outcome)
 {
-	if(mode_dist)
+	if(mode_dist || mode_rank)
 		printf("RANK%d ", (int)nid);
 	printf("{\"outcome\":\"%s\",\"lines\":%lu,\"dispatch\":%lu,\"frozen_dispatch\":%lu,\"fwd\":%lu,\"rollbacks\":%lu,"
 	       "\"silent\":%lu,\"antis\":%lu,\"gvt\":%lu,\"ckpt\":%lu,\"fossil\":%lu,\"msgs\":%llu,\"steps\":%llu,"
 	       "\"switches\":%llu,\"s_below_gvt\":%lu,\"s_rb_mismatch\":%lu,\"s_double_free\":%lu,\"s_rb_checked\":%lu,"
-	       "\"s_rb_after_fossil\":%lu,\"s_gvt_decrease\":%lu,\"s_gvt_disagree\":%lu,\"allocs\":%lu,\"frees\":%lu,\"votes\":%lu,\"s_vote_false_pred\":%lu,\"antis_remote\":%lu,\"fossil_attempts\":%lu",
+	       "\"s_rb_after_fossil\":%lu,\"s_gvt_decrease\":%lu,\"s_gvt_disagree\":%lu,\"allocs\":%lu,\"frees\":%lu,\"votes\":%lu,\"s_vote_false_pred\":%lu,\"antis_remote\":%lu,\"early_antis\":%lu,\"fossil_attempts\":%lu",
 	    outcome, n_lines, n_dispatch, n_frozen_dispatch, n_fwd, n_rollbacks, n_silent, n_antis, n_gvt, n_ckpt, n_fossil,
 	    (unsigned long long)next_ord, (unsigned long long)vs_steps, (unsigned long long)vs_switches, s_below_gvt,
 	    s_rb_mismatch, s_double_free, s_rb_checked, s_rb_after_fossil, s_gvt_decrease, s_gvt_disagree, n_alloc, n_free,
-	    n_votes, s_vote_false_pred, n_ev[39], n_fossil_attempts);
+	    n_votes, s_vote_false_pred, n_ev[39], n_ev[38], n_fossil_attempts);
 	printf(",\"points\":[");
 	for(int t = 0; t < vs_registered && t < VS_MAXT; ++t)
 		printf("%s{\"last\":%u,\"stage\":%u}", t ? "," : "", vs_point[t], drain_stage[t]);
@@ -512,9 +561,12 @@ int main(int argc, char **argv)
 		return 2;
 	mode_par = !strcmp(argv[1], "par");
 	mode_dist = !strcmp(argv[1], "dist");
+	mode_rank = !strcmp(argv[1], "rank");
+	if(mode_rank)
+		mode_par = 1; /* same vocabulary and oracles as par */
 	ops_path = argv[2];
 	c_path = argv[3];
-	if(!mode_dist) {
+	if(!mode_dist && !mode_rank) {
 		f_ops = xfopen(argv[2], "w");
 		f_c = xfopen(argv[3], "w");
 	}
@@ -543,7 +595,10 @@ int main(int argc, char **argv)
 	gm_on_init = on_init;
 	gm_on_fini = on_fini;
 
-	if(!mode_dist) {
+	snprintf(rank_model_line, sizeof rank_model_line, "model %llu %u %u %u %u %u %u %u %u %u %u %llu %u",
+	    (unsigned long long)GM.seed, GM.n_lps, GM.n_types, GM.max_fan, GM.thr_base, GM.thr_spread, GM.use_rng, GM.mem_ops,
+	    GM.t0_events, threads, ckpt, (unsigned long long)tterm_q, GM.skew);
+	if(!mode_dist && !mode_rank) {
 		OP("model %llu %u %u %u %u %u %u %u %u %u %u %llu %u", (unsigned long long)GM.seed, GM.n_lps, GM.n_types,
 		    GM.max_fan, GM.thr_base, GM.thr_spread, GM.use_rng, GM.mem_ops, GM.t0_events, threads, ckpt,
 		    (unsigned long long)tterm_q, GM.skew);
@@ -566,14 +621,14 @@ int main(int argc, char **argv)
 	    .committed = gm_can_end};
 	if(RootsimInit(&conf))
 		return 2;
-	if(mode_dist)
+	if(mode_dist || mode_rank)
 		vs_budget = argu(argc, argv, "budget", UINT64_MAX / 2); /* ranks wait for each other: wall-clock watchdog instead */
 	if(mode_par || mode_dist) {
 		vs_on_hang = on_hang;
 		vs_init((int)threads);
 	}
 	int rc = RootsimRun();
-	if(mode_dist && !f_ops)
+	if((mode_dist || mode_rank) && !f_ops)
 		dist_open();
 	OP("end");
 	if(mode_par) {
